@@ -744,6 +744,8 @@ type dirState struct {
 	shmAfterFallback bool // ... through the queue after an earlier one went through the socket
 	wInFlush         bool          // the writer is inside Flush/Write
 	wFlushSince      time.Duration // ... since this instant
+	ghostRunning     bool   // the application is closing a re-created ("ghost") server stream of this id
+	ghostQf          uint64
 	closeRunning     bool   // the writer's Close() has been called and has not returned
 	qfAtClose        uint64 // queue-full counter of the session when that Close() started
 }
@@ -771,7 +773,11 @@ func (d *dirState) sureSince(upto int64) (time.Duration, bool) {
 // closeWentViaSocket also recognises a Close that is still running: the peer can observe the socket notification
 // before Close() returns to the harness (the library counts the full queue before it writes to the socket).
 func (d *dirState) closeWentViaSocket(we *endState) bool {
-	return d.closeViaSocket || (d.closeRunning && we.stream != nil && we.stream.session.stats.queueFullErrorCount != d.qfAtClose)
+	if we.stream == nil {
+		return d.closeViaSocket
+	}
+	qf := we.stream.session.stats.queueFullErrorCount
+	return d.closeViaSocket || (d.closeRunning && qf != d.qfAtClose) || (d.ghostRunning && qf != d.ghostQf)
 }
 
 type endState struct {
@@ -1443,7 +1449,18 @@ func (w *sessWorld) serverStream(st *Stream) {
 			return
 		}
 		w.probe("ghost_stream")
-		simrt.GoProc(w.ps, "ghost-closer", func() { _ = st.Close() })
+		simrt.GoProc(w.ps, "ghost-closer", func() {
+			// this close is one more close notification for the same stream id; like any other it goes through the
+			// socket when the queue is full (finding F-ORDER (c): it then overtakes what still waits in the queue)
+			d := ss.dirs[1]
+			d.ghostQf = st.session.stats.queueFullErrorCount
+			d.ghostRunning = true
+			_ = st.Close()
+			d.ghostRunning = false
+			if st.session.stats.queueFullErrorCount != d.ghostQf {
+				d.closeViaSocket = true
+			}
+		})
 		return
 	}
 	es.stream = st
@@ -2154,8 +2171,12 @@ func (c *streamCb) OnData(reader BufferReader) {
 		}
 		d.consumed += int64(len(got))
 		d.rLastLen = reader.Len()
-		ss.pins[0] = append(ss.pins[0], pinned{b: got, want: append([]byte(nil), got...), what: "ReadBytes in an earlier OnData"})
-		w.probe("cb_keep")
+		if !es.closeInvoked {
+			// (once Close has been called on this end - it is deferred while a callback runs - the slices are
+			// released whenever the callback goroutine gets to it)
+			ss.pins[0] = append(ss.pins[0], pinned{b: got, want: append([]byte(nil), got...), what: "ReadBytes in an earlier OnData"})
+			w.probe("cb_keep")
+		}
 	case "reply":
 		got, err := reader.ReadBytes(l)
 		if err != nil {
